@@ -219,7 +219,7 @@ STAT_HEADER = ("From Coq Require Import List NArith Bool.\nImport ListNotations.
                "From SV Require Import model.FreshStatTypes gen.GenFreshStat model.FreshStat.\nOpen Scope N_scope.\n")
 
 FS_OPS = ("inplace", "rename", "rename_keep", "chmod_keep", "same_newino", "touch", "delete", "create",
-          "forge_inplace", "touch_back")
+          "forge_inplace", "touch_back", "to_dir")
 
 
 def refreshed_correspondence(ctx):
@@ -273,6 +273,10 @@ def refreshed_correspondence(ctx):
                 rec_at = rng.randint(0, nops)
                 for i in range(nops + 1):
                     if i == rec_at:
+                        if os.path.isdir(path):          # a record is taken from a file (or a missing path)
+                            os.rmdir(path)
+                            with open(path, "wb") as fh:
+                                fh.write(fresh_bytes())
                         r = rng.random()
                         if r < 0.08:
                             record = FileHash.unknown()
@@ -288,8 +292,15 @@ def refreshed_correspondence(ctx):
                     if i == nops:
                         break
                     op = rng.choice(FS_OPS)
+                    if os.path.isdir(path) and op != "to_dir":
+                        os.rmdir(path)
                     exists = os.path.isfile(path)
-                    if op == "delete":
+                    if op == "to_dir":              # the path becomes a directory: refreshed raises HashFailedError
+                        if exists:
+                            os.remove(path)
+                        if not os.path.isdir(path):
+                            os.mkdir(path)
+                    elif op == "delete":
                         if exists:
                             os.remove(path)
                     elif op == "create" or not exists:
@@ -332,6 +343,29 @@ def refreshed_correspondence(ctx):
                         honest = False
                         hist[-1] = op + "(recorded-inode-reused)"
                 # the implementation
+                if os.path.isdir(path):
+                    raised = False
+                    try:
+                        res = compute_inp_hashes({path: record}, threading.Event())
+                        err, differs = False, path in res.new_hashes
+                        msg = 0 if not res.messages else (1 if "vanished" in res.messages[0] else 2)
+                    except ConsistencyError:
+                        err, differs, msg = True, False, 0
+                    except Exception:  # noqa: BLE001 -- HashFailedError leaves compute_inp_hashes (before 9b8c8cd)
+                        raised, err, differs, msg = True, False, False, 0
+                    checks.append(f"unreadable_case {coq_fh(record)} {coq_bool(raised)} {coq_bool(differs)} {msg} {coq_bool(err)}")
+                    d = {"history": hist, "path_is_directory": True, "raised": raised, "reported": differs}
+                    descr.append(d)
+                    ctx.case(("refreshed", tuple(hist), "dir"), nontrivial=True)
+                    ctx.count("refreshed:directory-" + ("raised" if raised else "reported" if differs else "not-reported"))
+                    if not record.is_unknown and not differs:
+                        ctx.add_failure("oracle", "refreshed-directory-not-reported",
+                                        "oracle:refreshed:change-not-reported:after-to_dir",
+                                        f"compute_inp_hashes did not report an input that was replaced by a directory "
+                                        f"({'the exception left the function' if raised else 'no entry in new_hashes'}): {hist}",
+                                        witness=d)
+                    os.rmdir(path)
+                    continue
                 got = record.refreshed(path)
                 try:
                     res = compute_inp_hashes({path: record}, threading.Event())
